@@ -8,7 +8,7 @@ import re
 from collections import Counter
 from typing import Optional
 
-from .extract import _COPYRIGHT_PATTERNS  # TODO: Get rid of this import.
+from .extract import find_copyright_match  # TODO: Get rid of this import.
 
 _COPYRIGHT_PREFIXES = {
     "spdx": "SPDX-FileCopyrightText:",
@@ -34,19 +34,15 @@ def merge_copyright_lines(copyright_lines: set[str]) -> set[str]:
     # TODO: Rewrite this function. It's a bit of a mess.
     copyright_in = []
     for line in copyright_lines:
-        for pattern in _COPYRIGHT_PATTERNS:
-            match = pattern.search(line)
-            if match is not None:
-                copyright_in.append(
-                    {
-                        "statement": match.groupdict()["statement"],
-                        "year": _parse_copyright_year(
-                            match.groupdict()["year"]
-                        ),
-                        "prefix": match.groupdict()["prefix"],
-                    }
-                )
-                break
+        match = find_copyright_match(line)
+        if match is not None:
+            copyright_in.append(
+                {
+                    "statement": match.groupdict()["statement"],
+                    "year": _parse_copyright_year(match.groupdict()["year"]),
+                    "prefix": match.groupdict()["prefix"],
+                }
+            )
 
     copyright_out = set()
     for line_info in copyright_in:
@@ -79,7 +75,16 @@ def merge_copyright_lines(copyright_lines: set[str]) -> set[str]:
             else:
                 year = f"{min(years)} - {max(years)}"
 
-        copyright_out.add(make_copyright_line(statement, year, prefix))
+        # The statement is a holder that was parsed out of a notice. Even if
+        # it reads like a notice itself ('Copyright Clearance Center'), it
+        # needs its prefix and years back.
+        copyright_out.add(
+            " ".join(
+                part
+                for part in (_COPYRIGHT_PREFIXES[prefix], year, statement)
+                if part
+            )
+        )
     return copyright_out
 
 
@@ -101,10 +106,11 @@ def make_copyright_line(
             "'string-symbol', or 'symbol'"
         )
 
-    for pattern in _COPYRIGHT_PATTERNS:
-        match = pattern.search(statement)
-        if match is not None:
-            return statement
+    # Only a statement that starts with a copyright tag is a notice already.
+    # A holder may contain such a word ('Jane Doe, Copyright Officer').
+    match = find_copyright_match(statement)
+    if match is not None and not statement[: match.start()].strip():
+        return statement
     if year is not None:
         return f"{prefix} {year} {statement}"
     return f"{prefix} {statement}"
